@@ -28,6 +28,9 @@ type c01P struct {
 	SIDb     uint32
 	UDP      bool
 	Discover bool // give the library two preferences so it performs discovery first
+	// ViaNewSession: the version-agnostic entry point NewSession(ctx, *SessionOpts) is used (no KG, name-only
+	// lookup, the library's default preferences 17 then 3 with discovery)
+	ViaNewSession bool `json:",omitempty"`
 }
 
 type c01Batch struct {
@@ -109,6 +112,10 @@ func c01Random(r *rand.Rand, seed int64) c01P {
 	p.Priv = byte(r.Intn(6))
 	p.Lookup = r.Intn(2) == 0
 	p.Discover = r.Intn(4) == 0
+	if r.Intn(8) == 0 {
+		p.ViaNewSession, p.Discover, p.KGMode, p.Lookup = true, false, 0, false
+		p.Suite = []refbmc.Suite{{Auth: 3, Integ: 4, Conf: 1}, {Auth: 1, Integ: 1, Conf: 1}}[r.Intn(2)]
+	}
 	switch r.Intn(6) {
 	case 0:
 		p.SIDb = 1
@@ -170,6 +177,7 @@ func c01Exec(run *ev.Run, c ev.Case) {
 					continue
 				}
 				p := c01Random(r, b.Seed*7919+int64(i))
+				p.ViaNewSession = false
 				p.Suite = stdSuites()[i%9]
 				p.User = randUser(r, (i/9)%17)
 				p.Pass = randPass(r, (i/(9*17))%21)
@@ -185,6 +193,7 @@ func c01Exec(run *ev.Run, c ev.Case) {
 			// sessions that carry many commands (every one of them must still get through)
 			for i := 0; i < b.Count; i++ {
 				p := c01Random(r, b.Seed*32452843+int64(i))
+				p.ViaNewSession = false
 				p.Suite = stdSuites()[i%9]
 				p.Cmds = []int{70, 130, 300}[i%3]
 				c01One(run, p)
@@ -192,6 +201,7 @@ func c01Exec(run *ev.Run, c ev.Case) {
 		case "none":
 			for i := 0; i < b.Count; i++ {
 				p := c01Random(r, b.Seed*15485863+int64(i))
+				p.ViaNewSession = false
 				switch i % 3 {
 				case 0:
 					p.Suite.Integ = 0
@@ -264,6 +274,15 @@ func c01One(run *ev.Run, p c01P) {
 			{ID: 0x71, Auth: 2, Integs: []byte{3}, Confs: []byte{2}}, rec, {ID: 0x72, Auth: 3, Integs: []byte{3}, Confs: []byte{3}}, {ID: 0x73, Auth: 1, Integs: []byte{3}, Confs: []byte{0}}}
 		csServer = &refbmc.CipherSuiteServer{Data: refbmc.EncodeSuiteRecords(recs[int(p.Seed&3):]), Channel: 1}
 	}
+	if p.ViaNewSession {
+		// the BMC advertises suite 3 and, if that is the case's suite, suite 17 (behind other records)
+		recs := []refbmc.SuiteRecord{{ID: 0x70, Auth: 0, Integs: []byte{0}, Confs: []byte{0}}, {ID: 3, Auth: 1, Integs: []byte{1}, Confs: []byte{1}}, {ID: 0x71, Auth: 2, Integs: []byte{3}, Confs: []byte{2}}}
+		if p.Suite.Auth == 3 {
+			recs = append(recs, refbmc.SuiteRecord{ID: 17, Auth: 3, Integs: []byte{4}, Confs: []byte{1}})
+			cfg.Suites = []refbmc.Suite{p.Suite, {Auth: 1, Integ: 1, Conf: 1}}
+		}
+		csServer = &refbmc.CipherSuiteServer{Data: refbmc.EncodeSuiteRecords(recs[int(p.Seed&1):]), Channel: 1}
+	}
 	opts := &bmc.V2SessionOpts{
 		SessionOpts: bmc.SessionOpts{
 			Username:          p.User,
@@ -306,7 +325,19 @@ func c01One(run *ev.Run, p c01P) {
 	defer cancel()
 	var sess *bmc.V2Session
 	var err error
-	pv, stack := safe(func() { sess, err = st.NewV2Session(ctx, opts) })
+	pv, stack := safe(func() {
+		if p.ViaNewSession {
+			var generic bmc.Session
+			if generic, err = st.NewSession(ctx, &opts.SessionOpts); err == nil {
+				var ok bool
+				if sess, ok = generic.(*bmc.V2Session); !ok {
+					err = fmt.Errorf("NewSession returned a %T, not a *bmc.V2Session", generic)
+				}
+			}
+			return
+		}
+		sess, err = st.NewV2Session(ctx, opts)
+	})
 	if pv != nil {
 		run.Violation("C01:panic-in-handshake:"+panicSite(stack), fmt.Sprintf("NewV2Session panicked for suite %v: %v\n%s", p.Suite, pv, trimStack(stack)), cs, nil)
 		return
